@@ -165,7 +165,7 @@ def judge(case: dict[str, Any]) -> Judgement:
     outcome = []
 
     cw = np.asarray(config.realizations.weights)
-    pms_cfg = config.gradient.perturbation_min_success
+    pms_cfg = P if case["failure"] != "pert" else max(1, P - 1)  # as requested in build()
     dead = np.zeros(R, dtype=bool)
     if failure == "real" or (failure in ("pert", "pert-strict") and P - 1 < pms_cfg):
         dead[fr] = True
@@ -217,7 +217,7 @@ def judge(case: dict[str, Any]) -> Judgement:
         pvals = np.concatenate([gres.evaluations.perturbed_objectives, gres.evaluations.perturbed_constraints], axis=-1)  # (R,P,3)
         failed_f = np.isnan(fvals[:, 0])
         pert_ok = ~np.isnan(pvals[..., 0])  # (R,P)
-        pms = config.gradient.perturbation_min_success
+        pms = pms_cfg
         failed_g = failed_f | (pert_ok.sum(axis=1) < pms)
         delta = (np.asarray(gres.evaluations.perturbed_variables) - np.asarray(gres.evaluations.variables))[..., free]  # (R,P,d)
         # filter weights (from the function values at x)
